@@ -50,7 +50,7 @@ PartitionChecks(g, a) ==
            IF ~IsPartitionSeq(g, c.fam) THEN q.ans.e = "NotAPartition"
            ELSE (Keys(g) # {} /\ (q.weighted => ~HasNaNAt(g, Keys(g)))
                    /\ Mass(g, q.weighted, Keys(g)) > 0) =>
-                  (q.ans.e = "" /\ q.ans.v = Modularity(g, FamSet(c.fam), q.weighted, q.res))>>
+                  (q.ans.e = "" /\ RatMatches(q.ans.v, Modularity(g, FamSet(c.fam), q.weighted, q.res)))>>
   >>
 
 ---------------------------------------------------------------------------
